@@ -412,8 +412,9 @@ func evalRange(node *jparse.RangeNode, data reflect.Value, env *environment) (re
 	results := reflect.MakeSlice(typeInterfaceSlice, size, size)
 
 	for i := 0; i < size; i++ {
-		results.Index(i).Set(reflect.ValueOf(lhs))
-		lhs++
+		// lhs+i is exact as long as the integers of the range
+		// are; repeated lhs++ stops moving at 2^53.
+		results.Index(i).Set(reflect.ValueOf(lhs + float64(i)))
 	}
 
 	return results, nil
